@@ -1833,6 +1833,15 @@ func TestVerifC15(t *testing.T) {
 	c15Overlap(t, out, srv, true)
 	c15OverlapAdd(t, out, srv)
 	c15OverlapRemove(t, out, srv)
+	// A list disabled while its refresh is in flight, then enabled again
+	// (block / allow, alone / beside a list that is updated, the source held
+	// back mid-line / at a line boundary / after the title line, the same or
+	// other content at the enabling call).
+	c15OverlapDisable(t, out, srv, false, false, true, 5)
+	c15OverlapDisable(t, out, srv, true, true, true, 30)
+	c15OverlapDisable(t, out, srv, false, true, true, 15)
+	c15OverlapDisable(t, out, srv, true, false, false, 20)
+	c15OverlapDisable(t, out, srv, false, true, false, 31)
 	c15BigBodies(t, out, srv)
 
 	r := vfNewRand(out.Seed)
